@@ -118,6 +118,17 @@ CLAIMED = {
          "configuration) is NOT decided - that needs execution.",
          "Trusted: CPython's ast parser, sa/props/c08.py (the frozen tables GUARDS and CTOR_KW, confirmed by reading), "
          "sa/contracts.py, sa/symlen.py. Numeric sanity of values (negative sizes, non-integers) is value-level."),
+ "C01": ("writer/reader agreement of derivation spines (use-def terms), symbolic thresholds/geometry, boundary evaluation of one guard",
+         "Does NOT decide round-trip equality over all databases (value-level). Decides the agreements between _Enc and "
+         "_Trap o _Search that every counter-example found so far violates, for all nine schemes: each label looked up by "
+         "_Search (token fields replaced by what _Trap puts into them) has the same derivation spine - primitive, key root, "
+         "domain-separation constant, counter start/step, encoding width, slice/piece position - as a label _Enc stores in "
+         "that container; decrypt keys and XOR masks coincide; SSE-1's stored next-pointer is the next counter's address; "
+         "partition/parse geometry agrees per container; Pi2Lev's threshold chain is contiguous and matches the slot "
+         "reservation; level tables cover t+1 levels, the encoded list size holds 2^t, DP17's divisor is positive; loops over "
+         "index data examine every element; ANSS16's size guard accepts every storable size (finite boundary evaluation).",
+         "Trusted: CPython's ast parser, sa/terms.py, sa/symlen.py, sa/props/c01.py. Assumes deterministic collision-free "
+         "primitives (C14-C16) and that DP17's random bucket choice finds room. Concrete results are never computed."),
 }
 NA_REASON = "check under construction in this session (see DESIGN.md section 3); not yet registered"
 NA = {}
